@@ -37,6 +37,9 @@ def input_loop(ctx, f, txl):
     txv = norm(txl.target.elts[0]) if isinstance(txl.target, ast.Tuple) else norm(txl.target)
     ls = [s for s in walk_own(txl) if isinstance(s, ast.For) and s is not txl and f'{txv}.inputs' in norm(s.iter)]
     if len(ls) != 1:
+        # the input list may reach the loop through locals (a filtered copy, a zip with the undo items)
+        ls = [s for s in walk_own(txl) if isinstance(s, ast.For) and s is not txl and f'{txv}.inputs' in norm(expand_locals(f, s.iter))]
+    if len(ls) != 1:
         raise AnalysisError(f'{f.key}: expected exactly one loop over {txv}.inputs')
     return ls[0], txv
 
